@@ -435,16 +435,23 @@ func c19Sinks(w *W) {
 	}
 	for _, s := range sc {
 		w.Journal("C19 sink scenario %s", s.name)
-		done, pv, dump := callWithWatchdog(30*time.Second, s.run)
+		done, pv, _ := callWithWatchdog(20*time.Second, s.run)
 		w.Eval(1)
 		cs := map[string]any{"scenario": s.name}
 		switch {
 		case !done:
-			if blocked, gr := blockedInLibrary(dump, "watchdogMarker"); blocked {
+			kind, gr := stuckInLibrary("watchdogMarker")
+			switch kind {
+			case "blocked":
 				w.Violate("C19:sink-call-blocks:"+s.name, "log call is parked inside the library:\n"+trunc(gr, 1200), cs)
-			} else {
+			case "spinning":
+				w.Violate("C19:sink-call-spins:"+s.name, "log call does not return: its goroutine keeps running inside the library (two dumps 300 ms apart):\n"+trunc(gr, 1200), cs)
+			default:
 				w.Inconclusive("scenario " + s.name + " did not finish")
 			}
+			// the stuck call cannot be cancelled: report what was seen and end this worker
+			w.flush()
+			os.Exit(0)
 		case pv != nil:
 			w.Violate("C19:sink-failure-panics:"+s.name, fmt.Sprintf("I/O failure surfaced as a panic in scenario %s: %v", s.name, pv), cs)
 		default:
